@@ -154,3 +154,15 @@ contract(T + 'DataLinkConnection.accept', 'C05',
                   ('post.fresh', 'result.send_cnt == 0 and result.send_ack == 0 and result.recv_cnt == 0 and '
                                  'result.recv_ack == 0 and result.recv_confs == 0 and result.state.value == 4')],
          raises={ERR: []})
+
+# C06 rests on "the data link connection is a FIFO": its SNEP/handover contracts are proved over an assumed socket
+# model.  The per-operation contracts above are what justifies that model on each endpoint, so they are also
+# obligations of C06 (a change in tco.py that breaks sequencing or acknowledgement handling breaks C06 there).
+import copy as _copy
+from pyvc.contracts import REGISTRY as _REG
+for _c in list(_REG):
+    if _c.prop == 'C05' and not _c.expect_fail:
+        _c2 = _copy.copy(_c)
+        _c2.prop = 'C06'
+        _c2.name = 'C06/dlc.' + _c.name.split('/', 1)[1]
+        _REG.append(_c2)
